@@ -5,6 +5,7 @@ package sql
 import (
 	"database/sql"
 	"database/sql/driver"
+	"time"
 
 	"seata.apache.org/seata-go/pkg/datasource/sql/types"
 	"seata.apache.org/seata-go/pkg/protocol/branch"
@@ -14,4 +15,12 @@ import (
 func RegisterDriversForVerif(atName, xaName string, target driver.Driver) {
 	sql.Register(atName, &seataATDriver{seataDriver: &seataDriver{branchType: branch.BranchTypeAT, transType: types.ATMode, target: target}})
 	sql.Register(xaName, &seataXADriver{seataDriver: &seataDriver{branchType: branch.BranchTypeXA, transType: types.XAMode, target: target}})
+}
+
+// SetXaBranchExecutionTimeoutForVerif sets the XA branch execution timeout (normally fixed by InitXA from the
+// client configuration) and returns the previous value.
+func SetXaBranchExecutionTimeoutForVerif(d time.Duration) time.Duration {
+	old := xaConnTimeout
+	xaConnTimeout = d
+	return old
 }
